@@ -203,6 +203,8 @@ class DualQuaternion:
             conj = DualQuaternion(left.real.conj(), -1 * left.dual.conj())
             vp = left * DualQuaternion.Pure(v) * conj
             return vp.dual.v
+        else:
+            raise ValueError('bad operands to dual quaternion *')
 
     def matrix(self):
         """
